@@ -264,9 +264,45 @@ def d1(cx: Cx, ob: Ob) -> None:
                 ob.violate(fn.qualname, where(fn, line), f"the {fw} route captures {names}; expected prefix then identifier", detail="groups")
 
 
+def _converter_in_one_app_slot(cx: Cx, ob: Ob, rts) -> None:
+    """A factory that parks ITS converter in one application-wide slot (``app.extensions[K]`` / ``app.config[K]`` with
+    a constant K) for the handler to pick up: an application may host several resolvers (blueprints registered under
+    different URL prefixes, each built from its own converter) - they all write the same slot, and every handler
+    answers from the converter that was registered last."""
+    import ast as _ast
+
+    for fw, (fn, handler, parts, line, deco) in rts.items():
+        if fn is None or not fn.params:
+            continue
+        conv = fn.params[0].name
+        for n in _ast.walk(fn.node):
+            if not (isinstance(n, _ast.Assign) and len(n.targets) == 1 and isinstance(n.value, _ast.Name) and n.value.id == conv):
+                continue
+            t = n.targets[0]
+            if not (isinstance(t, _ast.Subscript) and isinstance(t.value, _ast.Attribute) and t.value.attr in ("extensions", "config")):
+                continue
+            k = t.slice
+            constant_key = isinstance(k, _ast.Constant) or (isinstance(k, _ast.Name) and k.id in fn.module.constants and isinstance(fn.module.constants[k.id], _ast.Constant))
+            if not constant_key:
+                continue
+            # ... and the handler really answers from that slot (a converter merely published there harms nobody)
+            hnode = handler.node if handler is not None else None
+            reads = hnode is not None and any(isinstance(r, _ast.Subscript) and isinstance(r.ctx, _ast.Load) and isinstance(r.value, _ast.Attribute) and r.value.attr == t.value.attr and _ast.unparse(r.slice) == _ast.unparse(k) for r in _ast.walk(hnode))
+            if not reads:
+                continue
+            ob.violate(
+                fn.qualname,
+                where(fn, n.lineno),
+                f"{fn.name} keeps its converter in `{_ast.unparse(t)[:60]}` - ONE slot per application, under a constant key - and the handler answers from there: two resolvers built from different converters and registered on the same application share the slot, so requests to the first are resolved with the converter of the one registered last",
+                witness="app.register_blueprint(get_flask_blueprint(c1), url_prefix='/a'); app.register_blueprint(get_flask_blueprint(c2), url_prefix='/b', name='b'): GET /a/<curie of c1 only> -> 422",
+                detail="converter-in-app-slot",
+            )
+
+
 @obligation("C17-D2", "split = first delimiter: the pair handed to expand_pair is the first-occurrence split of the request path (prefix group cannot contain d, or the handler re-splits with _split(prefix + d + identifier, sep=converter.delimiter))", floor=2)
 def d2(cx: Cx, ob: Ob) -> None:
     rts = routes(cx, ob)
+    _converter_in_one_app_slot(cx, ob, rts)
     for fw, (fn, handler, parts, line, deco) in rts.items():
         if handler is None:
             ob.undecide(f"{fw}: handler function not found")
